@@ -118,7 +118,7 @@ Definition ex_block : prog := mk
      (ss [println [EInt 0];
           SBlock (ss [SVar (S "fmt") (ENew (S "P") (EInt 1));
                       SExpr false (ESel (S "fmt") (S "Println") (es [EInt 2]));
-                      SExpr false (ECall (S "twice") (es [EFuncLit [] false (ss [SExpr false (ESel (S "fmt") (S "Println") (es [EInt 3]))])]))]);
+                      SExpr false (ECall (S "twice") (es [EFuncLit [] 0 (ss [SExpr false (ESel (S "fmt") (S "Println") (es [EInt 3]))])]))]);
           println [EInt 4]])].
 
 Example C25_example_tracked_block :
@@ -156,7 +156,7 @@ Definition ex_ok : prog := mk
      (ss [SDefine (S "t") (ENew (S "T") (EInt 3));
           println [ESel (S "t") (S "Get") ENil; ESel (S "strings") (S "ToUpper") (es [EVar (S "g")])];
           SExpr false (ESel (S "fmt") (S "Printf")
-             (es [EStr (S "%d"); ECall (S "apply") (es [EFuncLit [S "x"] true (ss [SReturn (es [EAdd (EVar (S "x")) (EInt 1)])]); EInt 4])]))])].
+             (es [EStr (S "%d"); ECall (S "apply") (es [EFuncLit [S "x"] 1 (ss [SReturn (es [EAdd (EVar (S "x")) (EInt 1)])]); EInt 4])]))])].
 
 Example C25_example_hypotheses :
   imports_first (pdecls ex_ok) = true /\ no_shadow ex_ok = true /\ no_builtin_clash ex_ok = true /\ no_case_twin ex_ok = true.
@@ -185,6 +185,21 @@ Qed.
 (* the theorem applied: no evaluation of the converted program needed *)
 Example C25_example_by_theorem : forall t, run 40 Go ex_ok = Ok t -> run 40 XGo (gopstyle ex_ok) = Ok t.
 Proof. intros t H. apply C25_gopstyle_preserves; try (vm_compute; reflexivity). exact H. Qed.
+
+(* function-literal arguments by result arity: `return e1, e2` of a 2-result literal becomes the expression
+   lambda, `return two(x)` forwarding a multi-value call (1 expression, 2 results) and a bare `return` become
+   block lambdas *)
+Example C25_example_literal_arities :
+  fst (tr_args (Fctx [] [[]])
+         (es [EFuncLit [S "x"] 2 (ss [SReturn (es [EVar (S "x"); EVar (S "nil")])]);
+              EFuncLit [S "x"] 2 (ss [SReturn (es [ECall (S "two") (es [EVar (S "x")])])]);
+              EFuncLit [] 0 (ss [SReturn ENil]);
+              EFuncLit [S "x"] 1 (ss [SReturn (es [EVar (S "x")])])]))
+  = es [ELambda [S "x"] (es [EVar (S "x"); EVar (S "nil")]);
+        ELambda2 [S "x"] (ss [SReturn (es [ECall (S "two") (es [EVar (S "x")])])]);
+        ELambda2 [] (ss [SReturn ENil]);
+        ELambda [S "x"] (es [EVar (S "x")])].
+Proof. vm_compute. reflexivity. Qed.
 
 Print Assumptions C25_tables_ok.
 Print Assumptions C25_scope_tracking_invisible.
